@@ -13,11 +13,18 @@
       of a delta run and the adjacency of the windows of consecutive successful runs;
       `fullscan_detects`, `fullscan_refetches`: the periodic full scan.
 
-  A full `converges` theorem is not proved; the end of this file says what is missing.
+  13. `aligned_preserved`, `aligned_after_sync`, `aligned_after_init`: the invariant of the positional pairing;
+      `converges_step_partial` (with `scan_detected_rows_refreshed`, `delivered_rows_refreshed`,
+      `others_untouched_or_own`): what ONE hosts / services step with a due full scan does to every row;
+      `converges_quiescent_ints_partial`, `converges_quiescent_partial`: under the backend contracts
+      `ChangeVisible` / `StampsTell` the dynamic columns of the table equal the backend's after that step.
 
-  Helper lemmas live in `Lmd.Lemmas.PeerLemmas`.
+  A `converges` theorem over several runs is not proved; the end of this file says what is missing.
+
+  Helper lemmas live in `Lmd.Lemmas.PeerLemmas` and `Lmd.Lemmas.ConvergeLemmas`.
 -/
 import Lmd.Lemmas.PeerLemmas
+import Lmd.Lemmas.ConvergeLemmas
 
 namespace Lmd.C03
 open Lmd Lmd.PeerL
@@ -321,21 +328,412 @@ theorem fullscan_refetches (rows : List ReplyRow) (tsCol : String) (lo hi : Int)
     r ∈ deltaReply rows tsCol (some (lo, hi)) executing extra :=
   (deltaReply_mem rows tsCol lo hi executing extra r).2 ⟨hr, .inr (.inr hx)⟩
 
-/-! ## convergence — what is missing
+/-! ## 13. one hosts / services step converges towards the backend
 
-  `converges` (backend unchanged during two consecutive successful delta runs whose full scan is due ⇒ the
-  table equals the backend's) is not proved.  The pieces above give, for one run: which objects are detected
-  (`fullscan_detects`), that they are refetched (`fullscan_refetches`), and that a refetched object that is
-  addressed once and gets the full decision holds the backend's values (`applyDelta_copies_current`,
-  `row_after_cells`).  Missing for the composition:
-  * the positional pairing of the scan (`scan.zip cached`) and of a same-size reply pairs an object with *its*
-    cached row only if the cache is sorted by the same key order as the reply and keys are unique — an invariant
-    of the table set that `syncTable` establishes and every step would have to be shown to preserve;
-  * with `last_update` support a detected object is skipped by `decision` when neither `last_update` nor
-    `last_check` changed, so convergence needs the backend contract "every change bumps `last_update`";
-  * the scan columns must be dynamic int / int64 columns of the schema for `intChanged` to see what
-    `scanChanged` saw;
-  * the 149-block cap turns convergence into a progress statement over several runs.
+  Notation of this section, for the step `deltaTable w now p b c t window threshold` whose full scan is due:
+  `sortedReply w t (b.rows t)` are the backend's objects in primary-key order (what the scan request returns),
+  `stepScanCols` the scan columns, `stepMissing` the `last_check` values the scan lists (`scanMissing`),
+  `delivered … r` says that the delta request of the step returns the backend row `r` (it lies in the window —
+  `windowHit` — or its `last_check` is listed), `applyFlags` are the peer's flags when the reply is applied,
+  `CellsAgree cols row r`: `row` holds `coerce` of the value `r` delivers in every column of `cols` that `r`
+  delivers, `IntsAgree`: the same for the numbers of the int / int64 columns. -/
+
+/-- The pairing invariant survives a successful hosts / services step (full scan due or not): if the cached rows and
+    the backend's objects in primary-key order carry the same distinct keys position by position, they still do
+    afterwards — the step rewrites dynamic columns only, and (`KeyStatic`, a decidable fact about the schema) no
+    primary-key column, nor the base column of a lower-case shadow key column, is fetched as "Dynamic".  (`KeyStatic`
+    does not mention the peer's flags: a reconnect during the step may reset them.) -/
+theorem aligned_preserved (w : World) (now : Int) (p : PeerSt) (b : BackendSt) (c : Cache) (t : String)
+    (window : Option (Int × Int)) (threshold : Int) (hK : KeyStatic (tableOf w t))
+    (hA : Aligned w t (b.rows t) (c.get t)) (hok : (deltaTable w now p b c t window threshold).err = .none) :
+    Aligned w t ((deltaTable w now p b c t window threshold).b.rows t)
+      ((deltaTable w now p b c t window threshold).cache.get t) :=
+  aligned_step w now p b c t window threshold hK hA hok
+
+/-- The initial synchronisation establishes the pairing invariant: the table `CreateObjectByType` stores for a list
+    of backend objects is aligned with that list, when the key columns are plain locally stored string columns
+    (`KeyColsPlain`) and the objects have pairwise distinct primary keys. -/
+theorem aligned_after_sync (w : World) (t : String) (rows : List ReplyRow) (hP : KeyColsPlain (tableOf w t))
+    (hnd : (rows.map (replyKey (tableOf w t))).Nodup) : Aligned w t rows (syncTable (tableOf w t) rows) :=
+  aligned_syncTable w t rows hP hnd
+
+/-- The same for a whole successful `InitAllTables`: the hosts / services table it publishes (after the comments /
+    downtimes id lists were rebuilt) is aligned with the backend's objects. -/
+theorem aligned_after_init (w : World) (now : Int) (p : PeerSt) (b : BackendSt) (t : String)
+    (ht : t = "hosts" ∨ t = "services") (hP : KeyColsPlain (tableOf w t))
+    (hc : "comments" ∉ (tableOf w t).primaryKey) (hd : "downtimes" ∉ (tableOf w t).primaryKey)
+    (hnd : ((b.rows t).map (replyKey (tableOf w t))).Nodup) (hok : (initAllTables w now p b).err = .none) :
+    ∃ c : Cache, (initAllTables w now p b).p.cache = some c ∧
+      Aligned w t ((initAllTables w now p b).b.rows t) (c.get t) :=
+  aligned_initAllTables w now p b t ht hP hc hd hnd hok
+
+/-- non-vacuity of `aligned_after_sync` / `aligned_after_init`: the hosts table of `exWorld` has a plain string key that
+    is neither `comments` nor `downtimes`, the backend's hosts have distinct keys, and `InitAllTables` succeeds -/
+example : KeyColsPlain (tableOf exWorld "hosts") ∧ "comments" ∉ (tableOf exWorld "hosts").primaryKey ∧
+    "downtimes" ∉ (tableOf exWorld "hosts").primaryKey ∧
+    ((exBackend.rows "hosts").map (replyKey (tableOf exWorld "hosts"))).Nodup ∧
+    (initAllTables exWorld 100 {} exBackend).err = .none := by decide
+
+/-- The assumptions of the convergence theorems about ONE hosts / services step `deltaTable w now p b c t window
+    threshold`; all but the first are decidable facts about the concrete step. -/
+structure ScanStep (w : World) (now : Int) (p : PeerSt) (b : BackendSt) (c : Cache) (t : String) (threshold : Int) :
+    Prop where
+  /-- the cached table is aligned with the backend's objects (same number, same distinct keys position by position) -/
+  aligned : Aligned w t (b.rows t) (c.get t)
+  /-- the full scan is due: the last one is at least a minute old -/
+  due : ¬ lastFullOf p t > now - 60
+  /-- the scan request is answered -/
+  scanAnswered : (query w now p b).2.2 = none
+  /-- the delta request that follows is answered -/
+  deltaAnswered : (query w now (query w now p b).1 (query w now p b).2.1).2.2 = none
+  /-- the timestamp filter built from the scan's list stays under the cap of 150 lines, so nothing is cut off -/
+  underCap : tsFilterLen (stepMissing w now p b c t threshold) ≤ 150
+  /-- every scan column the table has (as int / int64) is one of the dynamic columns refreshed under the flags in force -/
+  scanColsDynamic : ScanColsDynamic w t (stepScanCols w now p b) (applyFlags w now p b)
+  /-- the dynamic columns have distinct names -/
+  namesNodup : ((dynamicCols w.schema (applyFlags w now p b) (tableOf w t).name).map (·.name)).Nodup
+
+/-- Which backend rows the delta request of a scanning step returns: `delivered` is membership in the reply. -/
+theorem delivered_exact (w : World) (now : Int) (p : PeerSt) (b : BackendSt) (c : Cache) (t : String)
+    (window : Option (Int × Int)) (threshold : Int) (r : ReplyRow) :
+    r ∈ deltaReply (b.rows t) (tsColumn w p.flags) window (stepExecuting w p.flags) (stepMissing w now p b c t threshold) ↔
+      r ∈ b.rows t ∧ delivered w now p b c t window threshold r = true := by
+  rw [deltaReply_eq_filter, List.mem_filter]; rfl
+
+/-! ### a concrete step: two hosts, `a` acknowledged on the backend since the last fetch without a new check result -/
+
+/-- host `a` on the backend: checked at 50, acknowledged meanwhile -/
+def exHostA : ReplyRow :=
+  [("name", Lean.Json.str "a"), ("last_check", Lean.Json.num 50), ("acknowledged", Lean.Json.num 1),
+   ("plugin_output", Lean.Json.str "x")]
+
+/-- host `b` on the backend: checked at 40, nothing changed -/
+def exHostB : ReplyRow :=
+  [("name", Lean.Json.str "b"), ("last_check", Lean.Json.num 40), ("acknowledged", Lean.Json.num 0),
+   ("plugin_output", Lean.Json.str "y")]
+
+/-- the backend of the example -/
+def exBackend2 : BackendSt := { tables := [("hosts", [exHostA, exHostB])], cols := [] }
+
+/-- the cached row of host `a`: not yet acknowledged -/
+def exRowA : Row :=
+  { cells := [("name", .s "a"), ("last_check", .i 50), ("acknowledged", .i 0), ("plugin_output", .s "x")] }
+
+/-- the cached row of host `b` -/
+def exRowB : Row :=
+  { cells := [("name", .s "b"), ("last_check", .i 40), ("acknowledged", .i 0), ("plugin_output", .s "y")] }
+
+/-- the table set of the example -/
+def exCache2 : Cache := [("hosts", [exRowA, exRowB])]
+
+/-- the peer of the example: last full scan of the hosts at 10 -/
+def exPeer2 : PeerSt := { lastFullHostUpdate := 10 }
+
+theorem exSorted : sortedReply exWorld2 "hosts" (exBackend2.rows "hosts") = [exHostA, exHostB] := by
+  have : exBackend2.rows "hosts" = [exHostA, exHostB] := rfl
+  rw [this]
+  exact sortedReply_of_sorted (by decide)
+
+theorem exAligned : Aligned exWorld2 "hosts" (exBackend2.rows "hosts") (exCache2.get "hosts") := by
+  apply aligned_of_keys
+  · rw [exSorted]; decide
+  · decide
+
+/-- non-vacuity of `ScanStep` (hence of the theorems below): the step at 200 with window `[100, 110)` and threshold 100
+    over the example satisfies every assumption -/
+theorem exScanStep : ScanStep exWorld2 200 exPeer2 exBackend2 exCache2 "hosts" 100 where
+  aligned := exAligned
+  due := by decide
+  scanAnswered := by decide
+  deltaAnswered := by decide
+  underCap := stepMissing_under_cap _ _ _ _ _ _ _ (by decide)
+  scanColsDynamic := by decide
+  namesNodup := by decide
+
+/-- non-vacuity of `aligned_preserved`: the key column `name` of the example's hosts table is static, the table is
+    aligned, and the step succeeds (`converges_step_partial` below) -/
+example : KeyStatic (tableOf exWorld2 "hosts") ∧
+    Aligned exWorld2 "hosts" (exBackend2.rows "hosts") (exCache2.get "hosts") := ⟨by decide, exAligned⟩
+
+/-- in the example the scan detects host `a` — `acknowledged` differs, `last_check = 50` lies before the threshold 100 —
+    and `a` is not in the window `[100, 110)` -/
+example : scanChanged (tableOf exWorld2 "hosts") (stepScanCols exWorld2 200 exPeer2 exBackend2) exRowA exHostA = true ∧
+    replyInt exHostA "last_check" < 100 ∧
+    windowHit (tsColumn exWorld2 exPeer2.flags) (some (100, 110)) (stepExecuting exWorld2 exPeer2.flags) exHostA = false := by
+  decide
+
+theorem exDyn :
+    dynamicCols exWorld2.schema (applyFlags exWorld2 200 exPeer2 exBackend2) (tableOf exWorld2 "hosts").name =
+      [{ name := "last_check", dtype := .int64, storage := .loc, fetch := "Dynamic" },
+       { name := "acknowledged", dtype := .int, storage := .loc, fetch := "Dynamic" },
+       { name := "plugin_output", dtype := .str, storage := .loc, fetch := "Dynamic" }] := by decide
+
+/-- the two positions of the example -/
+theorem exPositions {i : Nat} {r : ReplyRow} {old : Row}
+    (hi : (sortedReply exWorld2 "hosts" (exBackend2.rows "hosts"))[i]? = some r)
+    (hold : (exCache2.get "hosts")[i]? = some old) :
+    (r = exHostA ∧ old = exRowA) ∨ (r = exHostB ∧ old = exRowB) := by
+  rw [exSorted] at hi
+  have hc : exCache2.get "hosts" = [exRowA, exRowB] := rfl
+  rw [hc] at hold
+  match i, hi, hold with
+  | 0, hi, hold => left; simp at hi hold; exact ⟨hi.symm, hold.symm⟩
+  | 1, hi, hold => right; simp at hi hold; exact ⟨hi.symm, hold.symm⟩
+  | n + 2, hi, _ => simp at hi
+
+/-- ONE successful hosts / services step with a due full scan (assumptions: `ScanStep`).  The step succeeds, the
+    table keeps its size, and for every position `i` — backend row `r` (objects in primary-key order), cached row
+    `old`, which is the row of the same object — the new row `new` at position `i` satisfies:
+    * if the scan detects the object (`old` differs from `r` in a scan column and `last_check` lies before the
+      window), the row is delivered and gets the full decision;
+    * a row in the window is delivered;
+    * a delivered row becomes `rowAfter old r` — `old` rewritten from the backend row of the SAME object, according
+      to the decision (`row_after_cells`) — and with the full decision it holds the backend's current value
+      (`coerce`) in every dynamic column `r` delivers; whatever the decision, its int / int64 dynamic columns show
+      the backend's numbers;
+    * a row that is not delivered stays as it is.
+    Partial: this is one step, under the assumptions listed in `ScanStep` (in particular the cap is not reached). -/
+theorem converges_step_partial (w : World) (now : Int) (p : PeerSt) (b : BackendSt) (c : Cache) (t : String)
+    (window : Option (Int × Int)) (threshold : Int) (h : ScanStep w now p b c t threshold) :
+    (deltaTable w now p b c t window threshold).err = .none ∧
+    ((deltaTable w now p b c t window threshold).cache.get t).length = (c.get t).length ∧
+    ∀ (i : Nat) (r : ReplyRow) (old : Row), (sortedReply w t (b.rows t))[i]? = some r → (c.get t)[i]? = some old →
+      old.key (tableOf w t) = replyKey (tableOf w t) r ∧
+      ∃ new, ((deltaTable w now p b c t window threshold).cache.get t)[i]? = some new ∧
+        (scanChanged (tableOf w t) (stepScanCols w now p b) old r = true → replyInt r "last_check" < threshold →
+          delivered w now p b c t window threshold r = true ∧
+          decision w (applyFlags w now p b) (tableOf w t) old r = some true) ∧
+        (windowHit (tsColumn w p.flags) window (stepExecuting w p.flags) r = true →
+          delivered w now p b c t window threshold r = true) ∧
+        (delivered w now p b c t window threshold r = true →
+          new = rowAfter w (applyFlags w now p b) (tableOf w t) old r ∧
+          IntsAgree (dynamicCols w.schema (applyFlags w now p b) (tableOf w t).name) new r ∧
+          (decision w (applyFlags w now p b) (tableOf w t) old r = some true →
+            CellsAgree (dynamicCols w.schema (applyFlags w now p b) (tableOf w t).name) new r)) ∧
+        (delivered w now p b c t window threshold r = false → new = old) := by
+  obtain ⟨h1, _, h3, h4⟩ := scanStep_rows w now p b c t window threshold h.aligned h.due h.scanAnswered
+    h.deltaAnswered h.underCap
+  refine ⟨h1, h3, fun i r old hi hold => ⟨h.aligned.key i r old hi hold, _, h4 i r old hi hold, ?_, ?_, ?_, ?_⟩⟩
+  · exact fun hs hlt => ⟨delivered_of_scan hi hold hs hlt,
+      decision_of_intChanged (scanChanged_intChanged h.scanColsDynamic hs)⟩
+  · intro hw; unfold delivered; rw [hw]; rfl
+  · intro hd
+    rw [hd]
+    exact ⟨rfl, rowAfter_intsAgree w _ _ old r h.namesNodup,
+      fun hdec => rowAfter_full_cellsAgree w _ _ old r h.namesNodup hdec⟩
+  · intro hd; rw [hd]; rfl
+
+/-- The scan-detected rows are refreshed: an object whose cached row differs from the backend's row in a scan column
+    while its `last_check` lies before the window is refetched by the step, and afterwards its cached row holds the
+    backend's current value in every dynamic column the backend row delivers.  (Before the repair of
+    `prepareDataUpdateSet` such a row was skipped on backends with `last_update` when neither stamp moved.) -/
+theorem scan_detected_rows_refreshed (w : World) (now : Int) (p : PeerSt) (b : BackendSt) (c : Cache) (t : String)
+    (window : Option (Int × Int)) (threshold : Int) (h : ScanStep w now p b c t threshold)
+    (i : Nat) (r : ReplyRow) (old : Row) (hi : (sortedReply w t (b.rows t))[i]? = some r) (hold : (c.get t)[i]? = some old)
+    (hs : scanChanged (tableOf w t) (stepScanCols w now p b) old r = true) (hlt : replyInt r "last_check" < threshold) :
+    ∃ new, ((deltaTable w now p b c t window threshold).cache.get t)[i]? = some new ∧
+      ∀ col ∈ dynamicCols w.schema (applyFlags w now p b) (tableOf w t).name, ∀ k j,
+        r.find? (·.1 == col.name) = some (k, j) → new.cell? col.name = some (coerce col.dtype j) := by
+  obtain ⟨_, new, hn, h1, _, h3, _⟩ := (converges_step_partial w now p b c t window threshold h).2.2 i r old hi hold
+  obtain ⟨hd, hdec⟩ := h1 hs hlt
+  exact ⟨new, hn, (h3 hd).2.2 hdec⟩
+
+/-- in the example the step stores the acknowledgement of host `a`, although `a` lies outside the window -/
+example : ∃ new, ((deltaTable exWorld2 200 exPeer2 exBackend2 exCache2 "hosts" (some (100, 110)) 100).cache.get "hosts")[0]? =
+      some new ∧ new.cell? "acknowledged" = some (.i 1) := by
+  obtain ⟨new, h1, h2⟩ := scan_detected_rows_refreshed exWorld2 200 exPeer2 exBackend2 exCache2 "hosts" (some (100, 110)) 100
+    exScanStep 0 exHostA exRowA (by rw [exSorted]; rfl) rfl (by decide) (by decide)
+  exact ⟨new, h1, h2 { name := "acknowledged", dtype := .int, storage := .loc, fetch := "Dynamic" }
+    (by rw [exDyn]; decide) "acknowledged" (Lean.Json.num 1) rfl⟩
+
+/-- The delivered rows are refreshed from their own backend row: the new row is `rowAfter old r`; cell by cell
+    (`row_after_cells`): full decision — every delivered dynamic column holds the backend's value; numbers only —
+    the numeric ones do; skipped — unchanged; in every case the int / int64 dynamic columns show the backend's numbers. -/
+theorem delivered_rows_refreshed (w : World) (now : Int) (p : PeerSt) (b : BackendSt) (c : Cache) (t : String)
+    (window : Option (Int × Int)) (threshold : Int) (h : ScanStep w now p b c t threshold)
+    (i : Nat) (r : ReplyRow) (old : Row) (hi : (sortedReply w t (b.rows t))[i]? = some r) (hold : (c.get t)[i]? = some old)
+    (hd : delivered w now p b c t window threshold r = true) :
+    ((deltaTable w now p b c t window threshold).cache.get t)[i]? =
+      some (rowAfter w (applyFlags w now p b) (tableOf w t) old r) ∧
+    IntsAgree (dynamicCols w.schema (applyFlags w now p b) (tableOf w t).name)
+      (rowAfter w (applyFlags w now p b) (tableOf w t) old r) r ∧
+    (decision w (applyFlags w now p b) (tableOf w t) old r = some true →
+      CellsAgree (dynamicCols w.schema (applyFlags w now p b) (tableOf w t).name)
+        (rowAfter w (applyFlags w now p b) (tableOf w t) old r) r) := by
+  obtain ⟨_, new, hn, _, _, h3, _⟩ := (converges_step_partial w now p b c t window threshold h).2.2 i r old hi hold
+  obtain ⟨e, h5, h6⟩ := h3 hd
+  subst e
+  exact ⟨hn, h5, h6⟩
+
+/-- Objects are never mixed up: after the step every position holds either its old row or that row rewritten from
+    the backend row of the object with the same primary key — and the old row exactly when the backend row was not
+    delivered. -/
+theorem others_untouched_or_own (w : World) (now : Int) (p : PeerSt) (b : BackendSt) (c : Cache) (t : String)
+    (window : Option (Int × Int)) (threshold : Int) (h : ScanStep w now p b c t threshold)
+    (i : Nat) (r : ReplyRow) (old : Row) (hi : (sortedReply w t (b.rows t))[i]? = some r) (hold : (c.get t)[i]? = some old) :
+    old.key (tableOf w t) = replyKey (tableOf w t) r ∧
+    ∃ new, ((deltaTable w now p b c t window threshold).cache.get t)[i]? = some new ∧
+      (new = old ∨ new = rowAfter w (applyFlags w now p b) (tableOf w t) old r) ∧
+      (delivered w now p b c t window threshold r = false → new = old) := by
+  obtain ⟨hk, new, hn, _, _, h3, h4⟩ := (converges_step_partial w now p b c t window threshold h).2.2 i r old hi hold
+  refine ⟨hk, new, hn, ?_, h4⟩
+  cases hd : delivered w now p b c t window threshold r with
+  | true => exact .inr (h3 hd).1
+  | false => exact .inl (h4 hd)
+
+/-- The backend contract of the delta update ("a change is visible"): every object whose cached row differs from its
+    backend row in some delivered dynamic column either differs in a scan column while its `last_check` lies before
+    the window, or lies in the window.  An assumption about the monitoring core. -/
+def ChangeVisible (w : World) (now : Int) (p : PeerSt) (b : BackendSt) (c : Cache) (t : String)
+    (window : Option (Int × Int)) (threshold : Int) : Prop :=
+  ∀ (i : Nat) (r : ReplyRow) (old : Row), (sortedReply w t (b.rows t))[i]? = some r → (c.get t)[i]? = some old →
+    ¬ CellsAgree (dynamicCols w.schema (applyFlags w now p b) (tableOf w t).name) old r →
+    (scanChanged (tableOf w t) (stepScanCols w now p b) old r = true ∧ replyInt r "last_check" < threshold) ∨
+      windowHit (tsColumn w p.flags) window (stepExecuting w p.flags) r = true
+
+/-- The second contract ("the stamps tell"): a delivered row that `prepareDataUpdateSet` skips (backend with
+    `last_update`: `last_update`, `last_check` and all int / int64 columns unchanged) has no other dynamic column
+    changed either, and a delivered row that gets the numbers-only update (no `last_update`: `last_check` and all
+    int / int64 columns unchanged) has no non-numeric dynamic column changed.  An assumption about the monitoring
+    core: strings change only together with a stamp or a number. -/
+def StampsTell (w : World) (now : Int) (p : PeerSt) (b : BackendSt) (c : Cache) (t : String)
+    (window : Option (Int × Int)) (threshold : Int) : Prop :=
+  ∀ (i : Nat) (r : ReplyRow) (old : Row), (sortedReply w t (b.rows t))[i]? = some r → (c.get t)[i]? = some old →
+    delivered w now p b c t window threshold r = true →
+    (decision w (applyFlags w now p b) (tableOf w t) old r = none →
+      CellsAgree (dynamicCols w.schema (applyFlags w now p b) (tableOf w t).name) old r) ∧
+    (decision w (applyFlags w now p b) (tableOf w t) old r = some false →
+      CellsAgree ((dynamicCols w.schema (applyFlags w now p b) (tableOf w t).name).filter fun c => !isNumericCol c) old r)
+
+/-- non-vacuity of the contract `ChangeVisible`: in the example the only object that differs (`a`) is detected by the scan -/
+example : ChangeVisible exWorld2 200 exPeer2 exBackend2 exCache2 "hosts" (some (100, 110)) 100 := by
+  intro i r old hi hold hne
+  rcases exPositions hi hold with ⟨rfl, rfl⟩ | ⟨rfl, rfl⟩
+  · left; decide
+  · exfalso
+    apply hne
+    rw [exDyn]
+    intro col hc k j hf
+    simp only [List.mem_cons, List.not_mem_nil, or_false] at hc
+    rcases hc with rfl | rfl | rfl <;> cases hf <;> rfl
+
+/-- non-vacuity of the contract `StampsTell`: in the example the only delivered row (`a`) gets the full decision -/
+example : StampsTell exWorld2 200 exPeer2 exBackend2 exCache2 "hosts" (some (100, 110)) 100 := by
+  intro i r old hi hold hd
+  rcases exPositions hi hold with ⟨rfl, rfl⟩ | ⟨rfl, rfl⟩
+  · have : decision exWorld2 (applyFlags exWorld2 200 exPeer2 exBackend2) (tableOf exWorld2 "hosts") exRowA exHostA =
+        some true := by decide
+    rw [this]
+    exact ⟨nofun, nofun⟩
+  · have : delivered exWorld2 200 exPeer2 exBackend2 exCache2 "hosts" (some (100, 110)) 100 exHostB = false := by
+      unfold delivered
+      rw [Bool.or_eq_false_iff]
+      refine ⟨by decide, ?_⟩
+      rw [← Bool.not_eq_true, List.contains_iff_mem]
+      unfold stepMissing
+      rw [scanMissing_mem, exSorted]
+      decide
+    rw [this] at hd; cases hd
+
+/-- Quiescence, numbers: under `ScanStep` and the contract `ChangeVisible`, after the step EVERY cached row shows the
+    backend's number in every int / int64 dynamic column its backend row delivers, and every row that was not
+    delivered or got the full decision holds the backend's value in ALL dynamic columns its backend row delivers.
+    Partial: one step under `ScanStep`; for delivered rows that were skipped or updated in their numbers only,
+    nothing is claimed here about the other columns (see `converges_quiescent_partial`). -/
+theorem converges_quiescent_ints_partial (w : World) (now : Int) (p : PeerSt) (b : BackendSt) (c : Cache) (t : String)
+    (window : Option (Int × Int)) (threshold : Int) (h : ScanStep w now p b c t threshold)
+    (hV : ChangeVisible w now p b c t window threshold) :
+    (deltaTable w now p b c t window threshold).err = .none ∧
+    ∀ (i : Nat) (r : ReplyRow) (old : Row), (sortedReply w t (b.rows t))[i]? = some r → (c.get t)[i]? = some old →
+      ∃ new, ((deltaTable w now p b c t window threshold).cache.get t)[i]? = some new ∧
+        IntsAgree (dynamicCols w.schema (applyFlags w now p b) (tableOf w t).name) new r ∧
+        ((delivered w now p b c t window threshold r = false ∨
+            decision w (applyFlags w now p b) (tableOf w t) old r = some true) →
+          CellsAgree (dynamicCols w.schema (applyFlags w now p b) (tableOf w t).name) new r) := by
+  obtain ⟨h1, _, h2⟩ := converges_step_partial w now p b c t window threshold h
+  refine ⟨h1, fun i r old hi hold => ?_⟩
+  obtain ⟨_, new, hn, s1, s2, s3, s4⟩ := h2 i r old hi hold
+  refine ⟨new, hn, ?_⟩
+  cases hd : delivered w now p b c t window threshold r with
+  | true =>
+    obtain ⟨_, a2, a3⟩ := s3 hd
+    exact ⟨a2, fun hx => hx.elim (fun hf => by cases hf) a3⟩
+  | false =>
+    have hagree : CellsAgree (dynamicCols w.schema (applyFlags w now p b) (tableOf w t).name) old r := by
+      apply Classical.byContradiction
+      intro hne
+      rcases hV i r old hi hold hne with ⟨hs, hlt⟩ | hw
+      · rw [(s1 hs hlt).1] at hd; cases hd
+      · rw [s2 hw] at hd; cases hd
+    rw [s4 hd]
+    exact ⟨hagree.ints, fun _ => hagree⟩
+
+/-- Quiescence: under `ScanStep` and the two backend contracts `ChangeVisible` and `StampsTell`, after ONE successful
+    hosts / services step every cached row holds, in every dynamic column its backend row delivers, the value
+    `UpdateValues` stores for the backend's current value — the dynamic part of the table equals the backend's.
+    Partial: one step under the assumptions of `ScanStep` (aligned table, scan due, both requests answered, cap not
+    reached, scan columns dynamic); what is missing for "the table equals the backend's" is listed at the end of
+    this file. -/
+theorem converges_quiescent_partial (w : World) (now : Int) (p : PeerSt) (b : BackendSt) (c : Cache) (t : String)
+    (window : Option (Int × Int)) (threshold : Int) (h : ScanStep w now p b c t threshold)
+    (hV : ChangeVisible w now p b c t window threshold) (hT : StampsTell w now p b c t window threshold) :
+    (deltaTable w now p b c t window threshold).err = .none ∧
+    ((deltaTable w now p b c t window threshold).cache.get t).length = (c.get t).length ∧
+    ∀ (i : Nat) (r : ReplyRow), (sortedReply w t (b.rows t))[i]? = some r →
+      ∃ new, ((deltaTable w now p b c t window threshold).cache.get t)[i]? = some new ∧
+        CellsAgree (dynamicCols w.schema (applyFlags w now p b) (tableOf w t).name) new r := by
+  obtain ⟨h1, hl, h2⟩ := converges_step_partial w now p b c t window threshold h
+  obtain ⟨_, h3⟩ := converges_quiescent_ints_partial w now p b c t window threshold h hV
+  refine ⟨h1, hl, fun i r hi => ?_⟩
+  obtain ⟨old, hold, _⟩ := h.aligned.cached_at hi
+  obtain ⟨hk, new, hn, _, _, s3, s4⟩ := h2 i r old hi hold
+  obtain ⟨new', hn', _, q2⟩ := h3 i r old hi hold
+  rw [hn] at hn'
+  cases Option.some.inj hn'
+  refine ⟨new, hn, ?_⟩
+  cases hd : delivered w now p b c t window threshold r with
+  | false => exact q2 (.inl hd)
+  | true =>
+    rw [(s3 hd).1]
+    obtain ⟨t1, t2⟩ := hT i r old hi hold hd
+    exact rowAfter_cellsAgree w _ _ old r h.namesNodup t1 t2
+
+/-! ## convergence — what is proved and what is missing
+
+  Proved (section 13), for ONE hosts / services step of the model whose full scan is due:
+  * the positional pairing of the scan (`scan.zip cached`) and of a same-size reply pairs every object with ITS cached
+    row — under the invariant `Aligned` (same number of rows, same primary key position by position, keys distinct).
+    `Aligned` is established by the initial synchronisation (`aligned_after_sync` for `CreateObjectByType`,
+    `aligned_after_init` for a whole successful `InitAllTables`, given plain string key columns and distinct keys on
+    the backend) and preserved by every successful hosts / services step (`aligned_preserved`, given that no key
+    column is dynamic);
+  * under `Aligned` the reply of the step is always accepted, a row the scan detects is refetched AND copied in full —
+    also on backends with `last_update` when neither stamp moved, since `prepareDataUpdateSet` now looks at the int
+    columns in every branch and the scan columns are dynamic int columns (`ScanColsDynamic`) —, a delivered row is
+    rewritten from the backend row of the same object, every other row is untouched (`converges_step_partial`);
+  * hence, if every difference between cache and backend is visible to the step (`ChangeVisible`) and stamps /
+    numbers tell about the strings (`StampsTell`), after the step every cached row holds the backend's current
+    value in every dynamic column the backend delivers (`converges_quiescent_partial`); without `StampsTell` still
+    all int / int64 columns do (`converges_quiescent_ints_partial`).
+
+  Still missing for "after two quiet delta runs the table equals the backend's":
+  * the cap: with more than 150 filter lines only the first 149 listed `last_check` values are refetched; the
+    theorems assume `tsFilterLen missing ≤ 150` (true for tables with fewer than 150 objects,
+    `stepMissing_under_cap`).  Beyond that convergence is a progress statement over several runs (every run refetches
+    149 values more, the next scan is a minute later) which is not proved;
+  * `ChangeVisible` and `StampsTell` are assumptions about the monitoring core, not facts about lmd: a change that
+    touches neither a scan column nor the time stamp of the window (a string edited in place, a float) is found by
+    no delta step; the model cannot exclude it;
+  * the composition over a whole `UpdateDelta` run and over consecutive runs: `Aligned` is shown to be kept by the
+    hosts / services steps only — `UpdateFullTable`, the comments / downtimes delta with `rebuildLists`, the
+    timeperiod refresh and a later `InitAllTables` would each need their (easy) preservation lemma, and the window
+    contiguity of section 12 would have to be combined with `ChangeVisible` for the steps whose scan is not due;
+  * only dynamic columns that the backend row delivers are covered; static columns are written once by the initial
+    synchronisation, and the comments / downtimes id lists are rebuilt from their own tables (property C12);
+  * `IntsAgree` speaks about what `Row.int` shows (a missing or ill-typed cell reads as 0), `CellsAgree` about the
+    stored cells; that every cached row is well typed is an invariant of `coerceRow` / `updateRow` not stated here;
+  * backends that deliver MORE objects than cached (the step marks the peer broken) or fewer (the reply is matched
+    by key; `Aligned` asks for equal numbers) are outside these theorems.
 -/
 
 end Lmd.C03
